@@ -312,6 +312,14 @@ def go_test_overlay(workdir, pkg, run_re, mapping, out_name, seed, tier, race=Fa
     return rc, out, outp, dt
 
 
+def panic_excerpt(out):
+    """The part of a go test output that shows a panic or fatal runtime error of the code under test (None if there is none)."""
+    m = re.search(r"^(panic: |fatal error: )", out, re.M)
+    if not m:
+        return None
+    return out[max(0, m.start() - 300):m.start() + 2500]
+
+
 def read_jsonl(path):
     rows = []
     if not os.path.exists(path):
